@@ -486,7 +486,7 @@ func structDecodeFuncOf(typ reflect.Type, version int16, flexible bool) decodeFu
 				return
 			}
 
-			for i := 0; i < n; i++ {
+			for i := 0; i < n && d.err == nil; i++ {
 				tagID := int(d.readUnsignedVarInt())
 				size := toLength(d.readUnsignedVarInt())
 
